@@ -592,6 +592,7 @@ def rule_o(R, ctx, rid="C17.o"):
 def check(ctx, R):
     from . import shared as _sh
     R.run("C17.o", rule_o, ctx)
+    R.run("C17.q", rule_q, ctx)
     R.run("C17.n", rule_n, ctx)
     R.run("C17.m", lambda R, c: _sh.api_delegations(
         R, c, "C17.m", _sh.READ_DELEGATIONS,
@@ -608,3 +609,26 @@ def check(ctx, R):
     from . import preds
     R.run("C17.p", lambda R, c: preds.rule(R, c, "C17.p", ["is_visible", "map_contains_key", "seen", "flags_check"]), ctx)
     return {}
+
+
+FFI_LEN_DELEGATIONS = [
+    ("yffi::ytext_len", r"yrs::Text::len$", {0: "\\1::from_raw_branch(txt)", 1: "<*const T>::as_ref(txn)"}, None),
+    ("yffi::yxmltext_len", r"yrs::Text::len$", {0: "\\1::from_raw_branch(txt)", 1: "<*const T>::as_ref(txn)"}, None),
+    ("yffi::ymap_len", r"yrs::Map::len$", {0: "\\1::from_raw_branch(map)", 1: "<*const T>::as_ref(txn)"}, None),
+    ("yffi::yxmlelem_child_len", r"yrs::XmlFragment::len$", {0: "\\1::from_raw_branch(xml)", 1: "<*const T>::as_ref(txn)"}, None),
+    ("yffi::yarray_len", r"yrs::branch::Branch::len$", {0: "<*const T>::as_ref(array)"}, None),
+]
+
+
+def rule_q(R, ctx, rid="C17.q"):
+    """The C length readers answer with the length method of the type they are named after."""
+    from . import shared as _sh
+    R.rule(rid, "R-PROV the C length readers: ytext_len and yxmltext_len answer Text::len (the content length in the configured offset "
+                "unit — Branch::len is the UTF-16 block length and differs for non-ASCII text under byte offsets), ymap_len answers "
+                "Map::len, yxmlelem_child_len XmlFragment::len, yarray_len Branch::len, each over the caller's own branch and "
+                "transaction, and that call is the function's answer")
+    Y = ctx.yffi
+    _sh._delegations(R, Y, rid, FFI_LEN_DELEGATIONS, 5)
+    for path, callee, _w, _g in FFI_LEN_DELEGATIONS:
+        fn = Y.fn(path)
+        single_answer(R, rid, fn, callee, "the length method's result")
